@@ -186,6 +186,15 @@ class Runner:
             # a negative index stands for an argument that is not a Track
             return ("tlts", tl.add(tracks=[env.track(i) if i >= 0 else f"not-a-track{i}" for i in op[1]],
                                    at_position=op[2]))
+        if k == "buffering":
+            # state reports of the audio layer that the core has to ignore: a buffering pause
+            # (target state set), and reports of states other than paused
+            from mopidy.types import PlaybackState as PS
+
+            o, n2, tg = [(PS.PLAYING, PS.PAUSED, PS.PLAYING), (PS.PAUSED, PS.PLAYING, None),
+                         (PS.PLAYING, PS.PAUSED, PS.PAUSED), (PS.PLAYING, PS.STOPPED, None)][op[1] % 4]
+            core.state_changed(old_state=o, new_state=n2, target_state=tg)
+            return ("none", None)
         if k == "indexof":
             # index(tl_track=<object>): an entry given as an object; an impostor has the entry's
             # tlid and URI but other metadata (it is not an entry)
@@ -432,6 +441,8 @@ def g_op(op):
         return "EndOfStream"
     if k == "tick":
         return f"Tick {g_z(op[1])}"
+    if k == "buffering":
+        return "Tick 0"      # ignored by the core: nothing changes
     if k == "load":
         return "Load (mkCov " + " ".join(g_bool(b) for b in op[1]) + ")"
     if k == "sethistory":
